@@ -262,6 +262,14 @@ package zygo
 //@ C19 ensures typeis(expr, *SexpSymbol) ==> r1 == nil && iff(r0 == 0, sym.number == expr.(*SexpSymbol).number)
 //@ C19 pure
 
+// keys that compare equal must land in the same bucket: a symbol hashes by its number, a string by
+// its bytes, so a symbol is comparable (without error) only with symbols and a string only with
+// strings; the key-order list is searched with Compare across ALL keys of the hash
+//@ func (*Zlisp).compareSymbol
+//@ C14 ensures a-symbol-equals-only-symbols: r1 == nil ==> typeis(expr, *SexpSymbol)
+//@ func compareString
+//@ C14 ensures a-string-equals-only-strings: r1 == nil ==> typeis(expr, *SexpStr) || typeis(expr, *SexpReflect)
+
 //@ func hashHelper
 //@ C14 ensures equal-keys-hash-alike: old(typeis(expr, *SexpInt)) ==> err == nil && !isList && hashcode == old(expr.(*SexpInt).Val)
 //@ C14 ensures equal-keys-hash-alike-char: old(typeis(expr, *SexpChar)) ==> err == nil && !isList && hashcode == int(old(expr.(*SexpChar).Val))
